@@ -126,6 +126,25 @@ func init() {
 			s.CorruptBlock, s.CorruptKind = j, "payload"
 			add(s)
 		}
+		// state-caching exploration: two batches of 4 tasks, 5 tasks, each block failing
+		add(decSpec("dec j4 valid 4blk+tail (two batches) state-caching", 4, 4, 100, "cache", -1))
+		add(decSpec("dec j5 valid 5blk+tail state-caching", 5, 5, 100, "cache", -1))
+		add(decSpec("dec j2 valid 3blk+tail state-caching (cross-check)", 2, 3, 100, "cache", -1))
+		for j := 1; j <= 6; j++ {
+			s = decSpec(fmt.Sprintf("dec j4 5blk+tail block %d payload-damaged state-caching", j), 4, 5, 100, "cache", -1)
+			s.CorruptBlock, s.CorruptKind = j, "payload"
+			add(s)
+		}
+		if c.Thorough() {
+			add(decSpec("dec j6 valid 7blk+tail state-caching", 6, 7, 100, "cache", -1))
+			for j := 1; j <= 6; j++ {
+				for _, kind := range []string{"length", "truncate"} {
+					s = decSpec(fmt.Sprintf("dec j4 5blk+tail block %d %s-damaged state-caching", j, kind), 4, 5, 100, "cache", -1)
+					s.CorruptBlock, s.CorruptKind = j, kind
+					add(s)
+				}
+			}
+		}
 		s = decSpec("dec j2 LZ/HUFFMAN valid 3blk+tail", 2, 3, 100, "sleep", -1)
 		s.Transform, s.Entropy = "LZ", "HUFFMAN"
 		add(s)
